@@ -177,7 +177,9 @@ trait SourceQueryDb: salsa::Database + zydeco_statics::query::TyckDb {
 #[derive(Clone)]
 pub struct CompilerSession {
     storage: Storage<Self>,
-    files: DashMap<PathBuf, SourceInput>,
+    /// Shared with every snapshot: an input first created while a snapshot analyses must be
+    /// the input the owner later edits, or the edit is invisible to memoized queries.
+    files: std::sync::Arc<DashMap<PathBuf, SourceInput>>,
     pending: std::sync::Arc<
         std::sync::Mutex<Option<std::sync::Arc<zydeco_statics::query::PendingParts>>>,
     >,
@@ -187,7 +189,7 @@ impl Default for CompilerSession {
     fn default() -> Self {
         Self {
             storage: Storage::default(),
-            files: DashMap::new(),
+            files: std::sync::Arc::new(DashMap::new()),
             pending: std::sync::Arc::new(std::sync::Mutex::new(None)),
         }
     }
